@@ -17,7 +17,10 @@ HEAD = ("From Coq Require Import ZArith List String Bool.\nFrom NadaV.PyMini Req
         "From NadaV.Spec Require Import MirSpec SigSpec.\nImport ListNotations.\nOpen Scope string_scope.\n")
 
 
-def run_sig(texts, chunk=25):
+SIG_CHUNK = 25
+
+
+def run_sig(texts, chunk=SIG_CHUNK):
     chunks = [texts[i:i + chunk] for i in range(0, len(texts), chunk)]
 
     def one(ch):
@@ -151,6 +154,35 @@ def eval_shards(ctx, name, items, expr, per_shard=40):
     return sorted(bad), errors
 
 
+# fixed program shapes: (family, text, parties constructed, inputs constructed)
+SHAPES = [
+    ("module-level-declarations",
+     'from nada_dsl import *\n\nalice = Party(name="Alice")\nx = SecretInteger(Input(name="x", party=alice))\n\n'
+     'def nada_main():\n    bob = Party(name="Bob")\n    y = SecretInteger(Input(name="y", party=bob))\n    return [Output(x + y, "s", alice)]\n',
+     ["Alice", "Bob"], [("x", "Alice", "SecretInteger"), ("y", "Bob", "SecretInteger")]),
+    ("same-value-to-two-parties",
+     'from nada_dsl import *\n\ndef nada_main():\n    alice = Party(name="Alice")\n    bob = Party(name="Bob")\n    carol = Party(name="Carol")\n'
+     '    a = SecretInteger(Input(name="a", party=alice))\n    b = SecretInteger(Input(name="b", party=bob))\n    t = a + b\n'
+     '    return [Output(t, "for_alice", alice), Output(t, "for_carol", carol)]\n',
+     ["Alice", "Bob", "Carol"], [("a", "Alice", "SecretInteger"), ("b", "Bob", "SecretInteger")]),
+    ("input-of-earlier-output-to-new-party",
+     'from nada_dsl import *\n\ndef nada_main():\n    p = Party(name="P")\n    q = Party(name="Q")\n    r = Party(name="R")\n'
+     '    a = PublicInteger(Input(name="a", party=p))\n    b = SecretInteger(Input(name="b", party=p))\n    u = SecretInteger(Input(name="u", party=q))\n'
+     '    return [Output(a * b, "prod", p), Output(a, "a_again", r)]\n',
+     ["P", "Q", "R"], [("a", "P", "PublicInteger"), ("b", "P", "SecretInteger"), ("u", "Q", "SecretInteger")]),
+    ("party-in-helper-called-twice",
+     'from nada_dsl import *\n\ndef owner():\n    return Party(name="Owner")\n\ndef nada_main():\n'
+     '    a = SecretInteger(Input(name="a", party=owner()))\n    b = SecretInteger(Input(name="b", party=owner()))\n'
+     '    return [Output(a + b, "s", owner())]\n',
+     ["Owner", "Owner", "Owner"], [("a", "Owner", "SecretInteger"), ("b", "Owner", "SecretInteger")]),
+    ("input-only-through-if-else",
+     'from nada_dsl import *\n\ndef nada_main():\n    p = Party(name="P")\n    q = Party(name="Q")\n'
+     '    a = SecretInteger(Input(name="a", party=p))\n    b = PublicInteger(Input(name="b", party=q))\n    c = PublicInteger(Input(name="c", party=q))\n'
+     '    return [Output((b < c).if_else(a, b), "o", p)]\n',
+     ["P", "Q"], [("a", "P", "SecretInteger"), ("b", "Q", "PublicInteger"), ("c", "Q", "PublicInteger")]),
+]
+
+
 CLAUSE = {1: "the outputs differ (name, receiving party, type or order)",
           2: "an input or party of the MIR is missing from the signature or listed with another owner / type",
           3: "what the signature lists beyond the MIR is not exactly what the program constructs and no output uses"}
@@ -163,6 +195,9 @@ def run(ctx):
     # ---- population 1: free-form programs of the common subset (lists, loops, comprehensions, helpers)
     n = 160 if ctx.tier == "quick" else 3000
     free = strict_gen.common_programs(ctx.seed, n)
+    # the fixed shapes are interleaved (twice) so that each is audited after other programs in the same process
+    for k, sh in enumerate(SHAPES + SHAPES):
+        free.insert(min(len(free), 3 + 7 * k), sh)
     # ---- population 2: straight-line programs (also run through the model)
     n2 = 200 if ctx.tier == "quick" else 3000
     anf = [anf_program(rng) for _ in range(n2)]
@@ -190,7 +225,8 @@ def run(ctx):
             mo = [(o["name"], o["party"], o["type"]) for o in m["outputs"]]
             sub = "order" if sorted(so) == sorted(mo) else ("unreturned" if set(mo) < set(so) else "content")
         vlib.report_failure(ctx, f"C18/clause{clause}" + (":" + sub if sub else ""), CLAUSE[clause],
-                            dict(case=dict(kind="program", family=fams[i], source_text=texts[i], constructs=dict(parties=decls[i][0], inputs=decls[i][1])),
+                            dict(case=dict(kind="program", family=fams[i], source_text=texts[i], constructs=dict(parties=decls[i][0], inputs=decls[i][1]),
+                                           audited_earlier_in_the_same_process=texts[(i // SIG_CHUNK) * SIG_CHUNK:i]),
                                  signature=s, mir_interface=dict(parties=[p["name"] for p in m["parties"]],
                                                                  inputs=[[x["name"], x["party"], x["type"]] for x in m["inputs"]],
                                                                  outputs=[[o["name"], o["party"], o["type"]] for o in m["outputs"]]),
